@@ -74,3 +74,236 @@ pub proof fn lemma_removed_all_range(items: Seq<(Seq<u8>, u64)>, tab: Table, lo:
         assert(is_event_key(w.events[items[i].1 as int], table, k));
     }
 }
+// ---- deltas between two transaction views (used to state "what a deletion request may touch") ----
+pub open spec fn own_event_key(w: World, pk: Seq<u8>, table: int, k: Seq<u8>) -> bool {
+    exists|off: int| #[trigger] w.events.contains_key(off) && ev_pubkey(w.events[off]) == pk && is_event_key(w.events[off], table, k)
+}
+pub open spec fn own_naddr_key(pk: Seq<u8>, k: Seq<u8>) -> bool {
+    exists|kind: u16, d: Seq<u8>| k == #[trigger] k_naddr(kind, pk, d)
+}
+// what a deletion request authored by `pk` is allowed to change between views d0 and d1
+pub open spec fn deletion_delta_ok(d0: Db, d1: Db, w: World, pk: Seq<u8>) -> bool {
+    forall|table: int, k: Seq<u8>| #![trigger db_get(d1, table, k)] 1 <= table <= 9 && db_get(d1, table, k) != db_get(d0, table, k) ==> {
+        if table == T_DELNADDR() { own_naddr_key(pk, k) }
+        else if table == T_DELID() {
+            // an id marker is only placed on an id that is not stored, or on the requester's own event
+            db_get(w.committed, T_I(), k) is None || ev_pubkey(w.events[db_get(w.committed, T_I(), k)->Some_0 as int]) == pk
+        }
+        else { db_get(d1, table, k) is None && own_event_key(w, pk, table, k) }
+    }
+}
+pub proof fn lemma_delta_trans(d0: Db, d1: Db, d2: Db, w: World, pk: Seq<u8>)
+    requires deletion_delta_ok(d0, d1, w, pk), deletion_delta_ok(d1, d2, w, pk)
+    ensures deletion_delta_ok(d0, d2, w, pk)
+{
+    assert forall|table: int, k: Seq<u8>| 1 <= table <= 9 && #[trigger] db_get(d2, table, k) != db_get(d0, table, k) implies ({
+        if table == T_DELNADDR() { own_naddr_key(pk, k) }
+        else if table == T_DELID() {
+            db_get(w.committed, T_I(), k) is None || ev_pubkey(w.events[db_get(w.committed, T_I(), k)->Some_0 as int]) == pk
+        }
+        else { db_get(d2, table, k) is None && own_event_key(w, pk, table, k) }
+    }) by {
+        if db_get(d2, table, k) != db_get(d1, table, k) {
+        } else {
+            assert(db_get(d1, table, k) != db_get(d0, table, k));
+        }
+    }
+}
+// index tables only lose entries between d0 and d1
+pub open spec fn index_shrinks(d0: Db, d1: Db) -> bool {
+    forall|table: int, k: Seq<u8>| #![trigger db_get(d1, table, k)] is_index_table(table) && db_get(d1, table, k) is Some
+        ==> db_get(d1, table, k) == db_get(d0, table, k)
+}
+pub proof fn lemma_db_ok_shrink(d0: Db, d1: Db, w: World)
+    requires db_ok(d0, w), index_shrinks(d0, d1)
+    ensures db_ok(d1, w)
+{
+    assert forall|table: int, k: Seq<u8>| is_index_table(table) && #[trigger] d1.t[table].contains_key(k) implies
+        w.events.contains_key(d1.t[table][k] as int) && is_event_key(w.events[d1.t[table][k] as int], table, k) by {
+        assert(db_get(d1, table, k) is Some);
+        assert(db_get(d1, table, k) == db_get(d0, table, k));
+        assert(d0.t[table].contains_key(k));
+    }
+}
+// the id table of view d agrees with the committed one wherever it has an entry, except possibly for `newid`
+pub open spec fn i_sub(d: Db, committed: Db, newid: Seq<u8>) -> bool {
+    forall|k: Seq<u8>| #![trigger db_get(d, T_I(), k)] k != newid && db_get(d, T_I(), k) is Some ==> db_get(d, T_I(), k) == db_get(committed, T_I(), k)
+}
+// ---- lemmas: who owns the entries a range scan finds ----
+pub proof fn lemma_tag_key_tables(e: Seq<u8>, table: int, k: Seq<u8>, n: int)
+    requires table != T_TC() && table != T_ATC() && table != T_KTC()
+    ensures !is_tag_key(e, table, k, n)
+    decreases n
+{
+    if n > 0 { lemma_tag_key_tables(e, table, k, n - 1); }
+}
+pub proof fn lemma_tag_key_witness(e: Seq<u8>, table: int, k: Seq<u8>, n: int) -> (t: int)
+    requires is_tag_key(e, table, k, n)
+    ensures 0 <= t < n && tag_contrib(e, t, table, k)
+    decreases n
+{
+    if tag_contrib(e, n - 1, table, k) { n - 1 } else { lemma_tag_key_witness(e, table, k, n - 1) }
+}
+// lo <= k < hi and lo, hi share their first n bytes  ==>  k starts with the same n bytes
+pub proof fn lemma_prefix_squeeze(lo: Seq<u8>, hi: Seq<u8>, k: Seq<u8>, n: int)
+    requires 0 <= n <= lo.len(), n <= hi.len(), n <= k.len(), lo.subrange(0, n) == hi.subrange(0, n),
+        bytes_le(lo, k), bytes_lt(k, hi)
+    ensures k.subrange(0, n) == lo.subrange(0, n)
+    decreases n
+{
+    if n == 0 {
+        assert(k.subrange(0, 0) =~= lo.subrange(0, 0));
+    } else {
+        assert(lo[0] == lo.subrange(0, n)[0]);
+        assert(hi[0] == hi.subrange(0, n)[0]);
+        // first bytes: lo[0] <= k[0] <= hi[0] == lo[0]
+        if lo == k {
+        } else {
+            assert(bytes_lt(lo, k));
+        }
+        assert(k[0] == lo[0]) by {
+            if lo != k { if lo[0] != k[0] { assert(lo[0] < k[0]); } }
+            if k[0] != hi[0] { assert(k[0] < hi[0]); }
+        }
+        let lo1 = lo.subrange(1, lo.len() as int);
+        let hi1 = hi.subrange(1, hi.len() as int);
+        let k1 = k.subrange(1, k.len() as int);
+        assert(lo1.subrange(0, n - 1) =~= lo.subrange(0, n).subrange(1, n));
+        assert(hi1.subrange(0, n - 1) =~= hi.subrange(0, n).subrange(1, n));
+        assert(bytes_le(lo1, k1)) by {
+            if lo == k { assert(lo1 == k1); } else { assert(bytes_lt(lo1, k1)); }
+        }
+        assert(bytes_lt(k1, hi1));
+        lemma_prefix_squeeze(lo1, hi1, k1, n - 1);
+        assert(k.subrange(0, n) =~= seq![k[0]] + k1.subrange(0, n - 1));
+        assert(lo.subrange(0, n) =~= seq![lo[0]] + lo1.subrange(0, n - 1));
+    }
+}
+pub proof fn lemma_akc_range_owner(w: World, d: Db, a: Seq<u8>, kd: u16, until: u64, k0: Seq<u8>)
+    requires world_inv(w), db_ok(d, w), a.len() == 32,
+        in_range(db_tab(d, T_AKC()), k_akc(a, kd, until, zeros32()), k_akc(a, kd, 0, ffs32()), k0)
+    ensures w.events.contains_key(db_tab(d, T_AKC())[k0] as int), ev_pubkey(w.events[db_tab(d, T_AKC())[k0] as int]) == a
+{
+    let tab = db_tab(d, T_AKC());
+    assert(d.t[T_AKC()].contains_key(k0));
+    let off = tab[k0] as int;
+    let e = w.events[off];
+    assert(is_event_key(e, T_AKC(), k0));
+    lemma_tag_key_tables(e, T_AKC(), k0, t_count(ev_tags(e)));
+    assert(k0 == k_akc(ev_pubkey(e), ev_kind(e), ev_created_at(e), ev_id(e)));
+    let lo = k_akc(a, kd, until, zeros32());
+    let hi = k_akc(a, kd, 0, ffs32());
+    assert(lo.subrange(0, 32) =~= a);
+    assert(hi.subrange(0, 32) =~= a);
+    assert(wf_event(e));
+    assert(ev_pubkey(e).len() == 32);
+    lemma_prefix_squeeze(lo, hi, k0, 32);
+    assert(k0.subrange(0, 32) =~= ev_pubkey(e));
+}
+pub proof fn lemma_atc_range_owner(w: World, d: Db, a: Seq<u8>, letter: u8, v: Seq<u8>, until: u64, k0: Seq<u8>)
+    requires world_inv(w), db_ok(d, w), a.len() == 32,
+        in_range(db_tab(d, T_ATC()), k_atc(a, letter, v, until, zeros32()), k_atc(a, letter, v, 0, ffs32()), k0)
+    ensures w.events.contains_key(db_tab(d, T_ATC())[k0] as int), ev_pubkey(w.events[db_tab(d, T_ATC())[k0] as int]) == a
+{
+    let tab = db_tab(d, T_ATC());
+    assert(d.t[T_ATC()].contains_key(k0));
+    let off = tab[k0] as int;
+    let e = w.events[off];
+    assert(is_event_key(e, T_ATC(), k0));
+    let t = lemma_tag_key_witness(e, T_ATC(), k0, t_count(ev_tags(e)));
+    let tb = ev_tags(e);
+    assert(k0 == k_atc(ev_pubkey(e), s_bytes(tb, t, 0)[0], s_bytes(tb, t, 1), ev_created_at(e), ev_id(e)));
+    let lo = k_atc(a, letter, v, until, zeros32());
+    let hi = k_atc(a, letter, v, 0, ffs32());
+    assert(lo.subrange(0, 32) =~= a);
+    assert(hi.subrange(0, 32) =~= a);
+    assert(wf_event(e));
+    assert(ev_pubkey(e).len() == 32);
+    lemma_prefix_squeeze(lo, hi, k0, 32);
+    assert(k0.subrange(0, 32) =~= ev_pubkey(e));
+}
+// removing one own event is an allowed delta
+pub proof fn lemma_delta_remove_event(d0: Db, d1: Db, w: World, pk: Seq<u8>, off: int)
+    requires w.events.contains_key(off), ev_pubkey(w.events[off]) == pk, db_minus_event(d0, d1, w.events[off])
+    ensures deletion_delta_ok(d0, d1, w, pk), index_shrinks(d0, d1)
+{
+    let e = w.events[off];
+    assert forall|table: int, k: Seq<u8>| 1 <= table <= 9 && #[trigger] db_get(d1, table, k) != db_get(d0, table, k) implies ({
+        if table == T_DELNADDR() { own_naddr_key(pk, k) }
+        else if table == T_DELID() { db_get(w.committed, T_I(), k) is None || ev_pubkey(w.events[db_get(w.committed, T_I(), k)->Some_0 as int]) == pk }
+        else { db_get(d1, table, k) is None && own_event_key(w, pk, table, k) }
+    }) by {
+        assert(is_event_key(e, table, k));
+        if table == T_DELNADDR() || table == T_DELID() { lemma_tag_key_tables(e, table, k, t_count(ev_tags(e))); }
+        assert(w.events.contains_key(off));
+    }
+}
+// removing every (selected) event of an author-prefixed range scan is an allowed delta
+pub proof fn lemma_delta_remove_akc_range(d0: Db, d1: Db, w: World, pk: Seq<u8>, kd: u16, until: u64)
+    requires world_inv(w), db_ok(w.committed, w), pk.len() == 32,
+        forall|table: int, k: Seq<u8>| #![trigger db_get(d1, table, k)] 1 <= table <= 9 ==> db_get(d1, table, k) ==
+            (if removed_by_range(db_tab(w.committed, T_AKC()), k_akc(pk, kd, until, zeros32()), k_akc(pk, kd, 0, ffs32()), w, None, table, k)
+                { None::<u64> } else { db_get(d0, table, k) }),
+    ensures deletion_delta_ok(d0, d1, w, pk), index_shrinks(d0, d1)
+{
+    let tab = db_tab(w.committed, T_AKC());
+    let lo = k_akc(pk, kd, until, zeros32());
+    let hi = k_akc(pk, kd, 0, ffs32());
+    assert forall|table: int, k: Seq<u8>| 1 <= table <= 9 && #[trigger] db_get(d1, table, k) != db_get(d0, table, k) implies ({
+        if table == T_DELNADDR() { own_naddr_key(pk, k) }
+        else if table == T_DELID() { db_get(w.committed, T_I(), k) is None || ev_pubkey(w.events[db_get(w.committed, T_I(), k)->Some_0 as int]) == pk }
+        else { db_get(d1, table, k) is None && own_event_key(w, pk, table, k) }
+    }) by {
+        assert(removed_by_range(tab, lo, hi, w, None, table, k));
+        let k0 = choose|k0: Seq<u8>| #[trigger] in_range(tab, lo, hi, k0) && scan_selects(w, None, tab[k0]) && is_event_key(w.events[tab[k0] as int], table, k);
+        lemma_akc_range_owner(w, w.committed, pk, kd, until, k0);
+        let e = w.events[tab[k0] as int];
+        if table == T_DELNADDR() || table == T_DELID() { lemma_tag_key_tables(e, table, k, t_count(ev_tags(e))); }
+        assert(w.events.contains_key(tab[k0] as int));
+    }
+}
+pub proof fn lemma_delta_remove_atc_range(d0: Db, d1: Db, w: World, pk: Seq<u8>, letter: u8, v: Seq<u8>, until: u64, only: Option<u16>)
+    requires world_inv(w), db_ok(w.committed, w), pk.len() == 32,
+        forall|table: int, k: Seq<u8>| #![trigger db_get(d1, table, k)] 1 <= table <= 9 ==> db_get(d1, table, k) ==
+            (if removed_by_range(db_tab(w.committed, T_ATC()), k_atc(pk, letter, v, until, zeros32()), k_atc(pk, letter, v, 0, ffs32()), w, only, table, k)
+                { None::<u64> } else { db_get(d0, table, k) }),
+    ensures deletion_delta_ok(d0, d1, w, pk), index_shrinks(d0, d1)
+{
+    let tab = db_tab(w.committed, T_ATC());
+    let lo = k_atc(pk, letter, v, until, zeros32());
+    let hi = k_atc(pk, letter, v, 0, ffs32());
+    assert forall|table: int, k: Seq<u8>| 1 <= table <= 9 && #[trigger] db_get(d1, table, k) != db_get(d0, table, k) implies ({
+        if table == T_DELNADDR() { own_naddr_key(pk, k) }
+        else if table == T_DELID() { db_get(w.committed, T_I(), k) is None || ev_pubkey(w.events[db_get(w.committed, T_I(), k)->Some_0 as int]) == pk }
+        else { db_get(d1, table, k) is None && own_event_key(w, pk, table, k) }
+    }) by {
+        assert(removed_by_range(tab, lo, hi, w, only, table, k));
+        let k0 = choose|k0: Seq<u8>| #[trigger] in_range(tab, lo, hi, k0) && scan_selects(w, only, tab[k0]) && is_event_key(w.events[tab[k0] as int], table, k);
+        lemma_atc_range_owner(w, w.committed, pk, letter, v, until, k0);
+        let e = w.events[tab[k0] as int];
+        if table == T_DELNADDR() || table == T_DELID() { lemma_tag_key_tables(e, table, k, t_count(ev_tags(e))); }
+        assert(w.events.contains_key(tab[k0] as int));
+    }
+}
+// a change confined to one marker entry
+pub proof fn lemma_delta_mark(d0: Db, d1: Db, w: World, pk: Seq<u8>, table0: int, k0: Seq<u8>)
+    requires table0 == T_DELID() || table0 == T_DELNADDR(),
+        forall|table: int, k: Seq<u8>| #![trigger db_get(d1, table, k)] 1 <= table <= 9 && !(table == table0 && k == k0) ==> db_get(d1, table, k) == db_get(d0, table, k),
+        table0 == T_DELNADDR() ==> own_naddr_key(pk, k0),
+        table0 == T_DELID() ==> (db_get(w.committed, T_I(), k0) is None || ev_pubkey(w.events[db_get(w.committed, T_I(), k0)->Some_0 as int]) == pk),
+    ensures deletion_delta_ok(d0, d1, w, pk), index_shrinks(d0, d1)
+{
+}
+pub proof fn lemma_delta_refl(d: Db, w: World, pk: Seq<u8>)
+    ensures deletion_delta_ok(d, d, w, pk), index_shrinks(d, d)
+{
+}
+pub proof fn lemma_shrink_trans(d0: Db, d1: Db, d2: Db)
+    requires index_shrinks(d0, d1), index_shrinks(d1, d2)
+    ensures index_shrinks(d0, d2)
+{
+    assert forall|table: int, k: Seq<u8>| is_index_table(table) && #[trigger] db_get(d2, table, k) is Some implies db_get(d2, table, k) == db_get(d0, table, k) by {
+        assert(db_get(d2, table, k) == db_get(d1, table, k));
+        assert(db_get(d1, table, k) is Some);
+    }
+}
